@@ -55,7 +55,8 @@ from collections import defaultdict
 from pydcop.computations_graph.objects import ComputationGraph, ComputationNode
 from pydcop.dcop.objects import AgentDef
 from pydcop.distribution import ilp_compref
-from pydcop.distribution.objects import DistributionHints, Distribution
+from pydcop.distribution.objects import DistributionHints, Distribution, \
+    ImpossibleDistributionException
 
 logger = logging.getLogger("distribution.heur_comhost")
 
@@ -72,6 +73,7 @@ def distribute(
     hints: DistributionHints = None,
     computation_memory: Callable[[ComputationNode], float] = None,
     communication_load: Callable[[ComputationNode, str], float] = None,
+    timeout=None,  # not used
 ) -> Distribution:
     """
 
@@ -121,7 +123,7 @@ def distribute(
 
         if not candidates:
             if i == 0:
-                raise ValueError("Impossible Distribution !")
+                raise ImpossibleDistributionException("Impossible Distribution !")
 
             # no candidate : backtrack !
             i -= 1
